@@ -166,11 +166,7 @@ func (p *evParser) term() *smt.Term {
 		switch op {
 		case "*":
 			if p.st.AbstractArith && !v.IsConst() && !r.IsConst() {
-				a, b := v, r
-				if a.ID > b.ID {
-					a, b = b, a
-				}
-				v = s.UF("uf_mul", 64, a, b)
+				v = s.SignedUF("mul", v, r)
 			} else {
 				v = s.Mul(v, r)
 				p.fits(v)
@@ -182,7 +178,7 @@ func (p *evParser) term() *smt.Term {
 				name, sop = "uf_rem", smt.OpSRem
 			}
 			if p.st.AbstractArith && !r.IsConst() {
-				v = s.UF(name, 64, v, r)
+				v = s.SignedUF(name[3:], v, r)
 			} else {
 				v = s.Bin(sop, v, r)
 			}
